@@ -108,7 +108,8 @@ def discharge(obls, axioms, timeout_ms=20000, jobs=None, use_cvc5=True):
             continue
         is_cover = o.kind == "cover"
         smt2 = to_smt2(axioms, o.assumptions, None if is_cover else o.goal)
-        work.append((i, smt2, timeout_ms if not is_cover else min(timeout_ms, 5000), use_cvc5, is_cover))
+        t_o = max(timeout_ms, int(o.extra.get("timeout_ms", 0)))
+        work.append((i, smt2, t_o if not is_cover else min(t_o, 5000), use_cvc5, is_cover))
     if work:
         if jobs > 1 and len(work) > 1:
             with mp.get_context("fork").Pool(jobs) as pool:
